@@ -226,7 +226,7 @@ fn chunk_positions(spec: &FileSpec, kind: &str) -> Vec<(usize, usize)> {
     v
 }
 
-pub const MODEL_OPS: [&str; 46] = [
+pub const MODEL_OPS: [&str; 47] = [
     "cel_payload_short",
     "cel_payload_long",
     "cel_decl_bigger",
@@ -273,6 +273,7 @@ pub const MODEL_OPS: [&str; 46] = [
     "slice_keys_count_huge",
     "tags_count_huge",
     "random_chunk_type",
+    "sparse_cel_table",
 ];
 
 fn fmt_of(spec: &FileSpec) -> Fmt {
@@ -703,6 +704,25 @@ pub fn model_input(base: &Base, op: usize, rng: &mut Rng, deep_groups: usize) ->
                 return Some(Input { operator: format!("model:{}", name), label: format!("last chunk of frame {} declares {} bytes inside a frame declaring 4 GiB", fi, read_field(&b, c.3, 4)), bytes: b });
             }
             return None;
+        }
+        "sparse_cel_table" => {
+            // WELL-FORMED: n layers x n frames, one 1x1 cel per frame on the top layer
+            // (frame-count / layer-count driven tables). n comes in through `deep_groups`.
+            let n = (deep_groups / 4).clamp(50, 8000);
+            let mut sp = Sprite::blank(1, 1, Fmt::Rgba, n);
+            for i in 0..n {
+                let mut l = LayerM::image("");
+                l.opacity = (i % 256) as u8;
+                sp.layers.push(l);
+            }
+            for f in 0..n {
+                sp.cels.insert((f as u16, (n - 1) as u16), CelM { x: 0, y: 0, opacity: 255, content: CelContentM::Image { w: 1, h: 1, pixels: vec![1, 2, 3, 4] }, ud: None });
+            }
+            let mut v = Variation::none();
+            v.default_storage = Storage::Raw;
+            let mut r = Rng::new(4);
+            spec = crate::program::compile(&sp, &mut r, &v);
+            label = format!("well-formed sprite of {} layers x {} frames, one 1x1 cel per frame on the top layer", n, n);
         }
         "zlib_garbage" => {
             // corrupt the compressed stream of a cel / tileset after encoding
